@@ -123,9 +123,9 @@ func runC05(r *Report) {
 				r.Fail("R-C05-2", ci.Pos(), "gzip stream copied without a size limit: a small body can inflate to gigabytes", key...)
 				return
 			}
-			limN, isC := ConstInt(Arg(lim, 1))
+			limN, isC := ConstInt(lim)
 			if !isC || limN > 16*1024*1024+1 || limN <= 0 {
-				r.Fail("R-C05-2", ci.Pos(), fmt.Sprintf("inflate limit is not a constant within the maximum body size (+1): %v", Arg(lim, 1)), key...)
+				r.Fail("R-C05-2", ci.Pos(), fmt.Sprintf("inflate limit is not a constant within the maximum body size (+1): %v", lim), key...)
 				return
 			}
 			// the amount copied is compared with the cap and the over-limit edge returns an error
@@ -336,7 +336,7 @@ func sameRoot(v ssa.Value, p *ssa.Parameter) bool {
 
 // gzipSource: does the reader value come from a gzip reader, and through
 // which io.LimitReader call (nil if none)?
-func gzipSource(v ssa.Value, depth int) (isGzip bool, limiter *ssa.Call) {
+func gzipSource(v ssa.Value, depth int) (isGzip bool, limit ssa.Value) {
 	if depth > 6 || v == nil {
 		return false, nil
 	}
@@ -349,10 +349,29 @@ func gzipSource(v ssa.Value, depth int) (isGzip bool, limiter *ssa.Call) {
 		c := CalleeOf(x)
 		if c.Is("io:LimitReader") {
 			gz, _ := gzipSource(Arg(x, 0), depth+1)
-			return gz, x
+			return gz, Arg(x, 1)
 		}
 		if c.Is("compression:NewGzipReader", "gzip:NewReader") {
 			return true, nil
+		}
+	case *ssa.Alloc:
+		// &io.LimitedReader{R: src, N: limit}: the literal form of io.LimitReader
+		if pt, ok := x.Type().Underlying().(*types.Pointer); ok {
+			if nt, ok := pt.Elem().(*types.Named); ok && nt.Obj().Name() == "LimitedReader" && nt.Obj().Pkg() != nil && nt.Obj().Pkg().Path() == "io" {
+				var src, lim ssa.Value
+				for _, st := range fieldStores(x) {
+					switch st.field {
+					case "R":
+						src = st.val
+					case "N":
+						lim = st.val
+					}
+				}
+				if src != nil && lim != nil {
+					gz, _ := gzipSource(src, depth+1)
+					return gz, lim
+				}
+			}
 		}
 	case *ssa.Phi:
 		for _, e := range x.Edges {
